@@ -14,8 +14,21 @@ ENGINES = {
  "pp": dict(path="spec/PpCore.tla spec/PpEnv.tla spec/MCPp.tla spec/PpObs.tla lib/pp_engine.py harness/src/cases.rs",
             props=["C01", "C12", "C13", "C16"],
             kind="the line machine of txtpp as a TLA+ step function over strings (built on Grammar.tla and TagInject.tla); TLC evaluates it on every source over a line catalogue, checks the declarative statements of C12/C13/C16 and prints the expected bytes, which are compared with real builds; observations of larger random sources are validated by TLC"),
+ "fs": dict(path="spec/Fs.tla spec/MCFs.tla lib/fs_engine.py harness/src/cases.rs",
+            props=["C06", "C07", "C08", "C09", "C10"],
+            kind="tree-level TLA+ model of the four modes over every abstract state of the generated paths (absent / built(versions, option) / garbage); TLC checks the property statements on every edge and prints the edges, each of which is materialised on disk and executed with the real code (per-transition tests), whole tree compared incl. inode/mtime and decoys"),
 }
 CHECKS = {
+ "C06": ("fs", "model_checking", "TLC: VerifyExact on every edge of Fs.tla (every abstract state x inputs x option); code: every selected verify edge executed from a materialised tree (12 corruption kinds per output: byte flips first/middle/last, insert, truncations incl. inside a multi-byte char, extension, deletion, option mismatch, source edited after build), verdict and untouched outputs (bytes, inode, mtime) compared", "2.6, 3.5, 5 C06",
+         "4 scenarios x 3 layouts (see evidence); fresh bytes = reference build of the same binary", "TLA+ spec Fs.tla checked with TLC; per-transition conformance tests generated from its edges"),
+ "C07": ("fs", "model_checking", "TLC: CleanRemoves, CleanRestores on Fs.tla; code: every clean edge executed from every abstract pre-state, plus build/clean histories (build-clean, clean alone, clean twice, needed-clean) on projects with run directives and erroneous directives: tree after clean = tree before any build, no command executed, verdict ok", "2.6, 3.5, 5 C07",
+         "input selections dependency-closed for the restore claim (D14)", "TLA+ spec Fs.tla checked with TLC; per-transition conformance tests + clean histories on the real code"),
+ "C08": ("fs", "model_checking", "TLC: BuildHermetic, BuildVerdict, BuildIdempotent, BuildForgets on Fs.tla; code: every selected build edge from every abstract pre-state (absent / stale / each corruption kind), result compared with a pristine reference build; builds killed at every hook event index (incl. every line step) and SIGKILLed at random times, then repaired by building again", "2.6, 3.5, 5 C08",
+         "for failing builds only the verdict is compared", "TLA+ spec Fs.tla checked with TLC; per-transition conformance tests + deterministic crash points through the hooks"),
+ "C09": ("fs", "model_checking", "TLC: NeededEquivBuild, NoRewriteWhenFresh, NeededAfterBuildIdle on Fs.tla; code: every selected needed-build edge and every temp-writing edge of build/verify: same verdict and bytes as build, touched set (inode, mtime) excludes everything already correct, stale files brought up to date; 1-2% through the CLI flag -N", "2.6, 3.5, 5 C09",
+         "touched = inode or mtime (sentinel in 2001) or bytes changed", "TLA+ spec Fs.tla checked with TLC; per-transition conformance tests with inode/mtime comparison"),
+ "C10": ("fs", "model_checking", "TLC: OnlyOwnPaths on every edge of Fs.tla; code: edges of all four modes (successful and failing scenarios, three name-shape layouts, inputs by file / output name / directory with -r) executed on trees with decoys at near-miss names; every file that is not an output or temp target of a processed source must keep bytes, inode and mtime, nothing else may appear", "2.6, 3.5, 5 C10",
+         "decoy catalogue in lib/fs_engine.py; name resolution itself is C11", "TLA+ spec Fs.tla checked with TLC; per-transition conformance tests comparing the whole tree"),
  "C01": ("pp", "model_checking", "TLC evaluates PpCore.tla (README semantics) on every source of <=3 (thorough: 4) catalogue lines x LF/CRLF x trailing on/off and prints the expected output bytes, temp files, commands and verdict; every case is built for real (library; a sample through the CLI) and compared byte for byte; random longer sources are observed and validated by TLC (PpObs.tla)", "2.3, 5 C01",
          "39-line catalogue and the model's command language (echo/cat/true/false/sh script); domain D1-D15 of DESIGN 4.3", "TLA+ spec PpCore.tla evaluated by TLC on a bounded-exhaustive source space; conformance: expected bytes replayed on real builds + TLC validation of recorded observations (PpObs.tla)"),
  "C12": ("pp", "model_checking", "TLC checks on every enumerated source that each terminator of output and temp files is the file's (invariant C12 on PpCore.tla); real builds of the same sources rendered with mixed LF/CRLF terminators on later lines, CRLF include files and CRLF command output are scanned byte by byte and compared with the prediction", "2.3, 5 C12",
